@@ -354,7 +354,7 @@ def read_common_post(v, sp, new_flag_eof=None):
                         eq(sub(v.g['dec_in'], length(v.g0['dec_in']), length(v.g['dec_in'])), delivered(v))))
         out += logs_post(v, sp, 'read', v.result)
     elif v.raised == 'EOF':
-        out += [('C06:eof-only-after-everything-was-delivered', drained_and_gone(v.g)),
+        out += [('C06+C07:eof-only-after-everything-was-delivered', drained_and_gone(v.g)),
                 ('C06:nothing-taken-and-dropped', eq(v.g['rawin'], v.g0['rawin']))]
     elif v.raised == 'TIMEOUT':
         out += [('C06:timeout-takes-nothing', eq(v.g['rawin'], v.g0['rawin']))]
@@ -768,7 +768,7 @@ class PopenRead(Contract):
         out = [('class-invariant', popen_inv(new, v.g)), ('peer-state', And(0 <= v.g['peer'], v.g['peer'] <= 2)),
                ('C05:never-blocks', eq(v.g['clk'], v.g0['clk']))]
         if v.raised == 'EOF':
-            return out + [('C06:eof-only-after-everything-was-delivered', And(drained_and_gone(v.g), eq(sp._buf, ''))),
+            return out + [('C06+C07:eof-only-after-everything-was-delivered', And(drained_and_gone(v.g), eq(sp._buf, ''))),
                           ('C06:nothing-taken-and-dropped', eq(v.g['rawin'], v.g0['rawin'])),
                           ('C04:eof-remembered', eq(new.flag_eof, True))]
         out += [
